@@ -2,7 +2,7 @@
 //@props C13,C03,C01
 //@tier quick
 //@profile rel
-//@assume BitReaderReversed (unit BRR1) and FSEDecoder / FSETable::build_decoder (units Q2, F3; F2 assumed) are abstract here with the contracts those units prove
+//@assume BitReaderReversed (unit BRR1) and FSEDecoder / FSETable::build_decoder (units Q2, F2 with F3) are abstract here with the contracts those units prove (shared text: include/contract_fse_build_decoder.rs)
 //@assume build_table_from_weights is abstract here with the contract Verus unit HU1V proves on its verbatim body
 use vstd::prelude::*;
 verus! {
